@@ -9,6 +9,7 @@ package main
 
 import (
 	"go/ast"
+	"go/token"
 	"go/types"
 )
 
@@ -32,7 +33,7 @@ func c04TypeConstructors(r *Run) {
 				continue
 			}
 			for _, c := range calls(fi.Decl.Body, true) {
-				if f := callee(fi.Pkg.TypesInfo, c); f != nil && (isPkgFunc(f, "reflect", "", "ArrayOf") || isPkgFunc(f, "reflect", "", "ChanOf")) {
+				if f := callee(fi.Pkg.TypesInfo, c); f != nil && (isPkgFunc(f, "reflect", "", "ArrayOf") || isPkgFunc(f, "reflect", "", "ChanOf") || isPkgFunc(f, "reflect", "", "FuncOf")) {
 					if rel == "internal/compiler/types" {
 						wrappers[fi.Obj] = f.Name()
 					}
@@ -75,6 +76,24 @@ func c04TypeConstructors(r *Run) {
 			o := r.Ob(R, key, c.Pos())
 			guarded := g.GuardedBy(c, func(l Lit) bool {
 				found := false
+				if what == "FuncOf" {
+					// reflect.FuncOf panics above 128 parameters and results: a comparison with a
+					// constant limit of the count must be on the way
+					ast.Inspect(l.Expr, func(m ast.Node) bool {
+						if be, ok := m.(*ast.BinaryExpr); ok {
+							switch be.Op {
+							case token.GTR, token.GEQ, token.LSS, token.LEQ:
+								for _, side := range []ast.Expr{be.X, be.Y} {
+									if v, ok := intValue(info, side); ok && v >= 2 && v <= 128 {
+										found = true
+									}
+								}
+							}
+						}
+						return true
+					})
+					return found
+				}
 				ast.Inspect(l.Expr, func(m ast.Node) bool {
 					if ce, ok := m.(*ast.CallExpr); ok {
 						if s, ok := ce.Fun.(*ast.SelectorExpr); ok && s.Sel.Name == "Size" && len(ce.Args) == 0 {
